@@ -30,7 +30,8 @@ import json
 import os
 
 import linetrace
-from vlib import Infra, build_drivers, read_ndjson, run_driver, tlc, write_evidence
+from vlib import (Infra, build_drivers, read_ndjson, run_driver, tlc, tlc_simulate,
+                  write_evidence)
 
 MC = """SPECIFICATION %s
 CONSTANTS
@@ -74,6 +75,14 @@ def model_check(ctx):
         raise Infra("Session.tla violates %s:\n%s" % (r["violated"], r["out"][-1500:]))
     states += r["distinct"]
     trans += r["generated"]
+    # beyond exhaustive reach: more connections and closes, random behaviours
+    sim = tlc_simulate(ctx, "MC_Session",
+                       MC % ("Spec", "TwoClients", 5, 9, "TRUE", "TRUE", "TRUE", INV),
+                       "sim_sess", 250 if quick else 6000, depth=250)
+    if not sim["ok"]:
+        raise Infra("Session.tla violates %s in simulation:\n%s" % (sim["violated"], sim["out"][-1500:]))
+    ctx.cov["simulated_behaviours"] = sim["traces"]
+    ctx.cov["simulated_states_checked"] = sim["states"]
     # mutants of the specification must be caught
     for name, ab, sd, want in (("noblock", "FALSE", "TRUE", "AtMostOneOpen"),
                                ("nodelete", "TRUE", "FALSE", "OldBoxesGone")):
